@@ -5,6 +5,7 @@
 From Coq Require Import List Arith Bool.
 Import ListNotations.
 From C17 Require Import Sem Progs Static Annot FutRaw.
+From C17 Require Exec.
 
 (* Data-race freedom of the model: whenever a thread is about to execute an instruction that reads
    or writes a shared variable or the callback queue, it owns the mutex that protects it
@@ -89,3 +90,27 @@ Theorem c17_future_raw : forall s, reach P init_fut_raw s ->
   (forall t k v, In (t, k, v) (outs s) -> k = OUT_GET -> v = THE_VALUE /\ var s ISSET = 1).
 Proof. exact FutRaw.fut_raw_safe. Qed.
 Print Assumptions c17_future_raw.
+
+(* ---- ExecutorThread with any number of producers and callbacks (scenario init_exec lims: thread 0 owns
+   the ExecutorThread: Start, start the producers, Stop, join the producers, destructor; thread 1 is its
+   ConsumerThread; thread 2+i calls Execute (nth i lims) times), with fixes 02-04, under EVERY
+   schedule including spurious wake-ups.  subm = callbacks in the order Execute queued them,
+   ran = (callback, executing thread) in the order they were run.
+   1. no hazard is reachable (no pop from an empty queue, no run without a callback, no bad unlock, ...);
+   2. no callback id is queued twice, and ran is a PREFIX of subm: every callback is run at most once and
+      callbacks are run in exactly the order they were queued (hence in submission order per producer);
+   3. a callback is run only by the consumer thread or, after the consumer was joined, by the owner in
+      Stop()/~ExecutorThread - never by the thread that submitted it (never inside Execute);
+   4. each producer's callbacks are queued with sequence numbers 0,1,2,...;
+   5. once the owner has finished (Stop and the destructor returned) every thread has finished, the queue
+      is empty and ran = subm: every submitted callback has run exactly once. *)
+Theorem c17_exec_once : forall lims s, reach P (init_exec lims) s ->
+  fault s = None /\
+  NoDup (subm s) /\
+  (exists rest, subm s = map fst (ran s) ++ rest) /\
+  (forall c t, In (c, t) (ran s) -> t <= 1 /\ 2 <= fst c /\ t <> fst c) /\
+  (forall i, i < length lims -> exists n, map snd (filter (fun c => fst c =? 2 + i) (subm s)) = seq 0 n) /\
+  (stat (thr s 0) = Done -> que s 0 = [] /\ map fst (ran s) = subm s /\
+                            forall t, t < nthr s -> stat (thr s t) = Done).
+Proof. exact Exec.exec_once. Qed.
+Print Assumptions c17_exec_once.
